@@ -1,13 +1,60 @@
 // C14: TraceState stays a valid, duplicate-free W3C list under every update (Engine B).
-// Every history of Set/Delete/Get/round-trip up to a depth bound, from several start states, on the
-// real TraceState in lock-step with an ordered-list reference model; plus a deviation-bounded
-// header generator for FromHeader.
+// Part 0: every history of Set/Delete/Get/round-trip up to a depth bound, from several start states, on the
+//         real TraceState in lock-step with an ordered-list reference model.
+// Part 1: a deviation-bounded header generator for FromHeader.
+// Part 2: one Set of every string of a wide set (every byte value at several positions, boundary lengths,
+//         vendor@tenant forms) on start states, followed by fixed observers (Get, round trip, Delete), plus
+//         Delete/Get of the key on the start state.
+// Part 3: the public validators IsValidKey / IsValidValue on that wide set against the W3C reference (three-valued).
+//
+// The same file builds two harnesses: `c14_tracestate` drives opentelemetry::trace::TraceState as this build
+// configures it (OPENTELEMETRY_HAVE_WORKING_REGEX == 1: the std::regex validators); with -DC14_NOREGEX
+// (`c14_noregex`, linked with harness/c14_noregex.cc) it drives the same header compiled with
+// OPENTELEMETRY_HAVE_WORKING_REGEX forced to 0 (the hand-written validators) and compares the two variants.
 #include <opentelemetry/trace/trace_state.h>
+
+#include <algorithm>
+#include <unordered_set>
 
 #include "seq/vf_seq.h"
 
 using opentelemetry::trace::TraceState;
 namespace nostd = opentelemetry::nostd;
+
+#ifdef C14_NOREGEX
+// ---- keep this declaration identical to the one in c14_noregex.cc ------------------------------
+namespace c14nr {
+class State {
+ public:
+  using Ptr = nostd::shared_ptr<State>;
+  static Ptr FromHeader(nostd::string_view header) noexcept;
+  std::string ToHeader() const noexcept;
+  bool Get(nostd::string_view key, std::string &value) const noexcept;
+  Ptr Set(const nostd::string_view &key, const nostd::string_view &value) noexcept;
+  Ptr Delete(const nostd::string_view &key) noexcept;
+  bool Empty() const noexcept;
+  bool GetAllEntries(nostd::function_ref<bool(nostd::string_view, nostd::string_view)> callback) const noexcept;
+  static bool IsValidKey(nostd::string_view key);
+  static bool IsValidValue(nostd::string_view value);
+  ~State();
+
+ private:
+  explicit State(void *impl);
+  State(const State &) = delete;
+  State &operator=(const State &) = delete;
+  void *impl_;  // nostd::shared_ptr<TraceStateNoRegex> *
+};
+}  // namespace c14nr
+// -------------------------------------------------------------------------------------------------
+using TS = c14nr::State;
+#  define C14_VARIANT "noregex"
+#  define C14_HARNESS "c14_noregex"
+#else
+using TS = TraceState;
+#  define C14_VARIANT "regex"
+#  define C14_HARNESS "c14_tracestate"
+#endif
+using Ptr = nostd::shared_ptr<TS>;
 
 namespace {
 
@@ -17,7 +64,8 @@ using List = std::vector<std::pair<std::string, std::string>>;
 bool lc(char c) { return c >= 'a' && c <= 'z'; }
 bool dg(char c) { return c >= '0' && c <= '9'; }
 bool kc(char c) { return lc(c) || dg(c) || c == '_' || c == '-' || c == '*' || c == '/'; }
-// level: 1 = W3C Trace Context level 1 (keys start with a letter), 2 = level 2 (a digit may lead)
+// level: 1 = the ABNF of W3C Trace Context level 1 (simple keys and system ids start with a letter),
+//        2 = its prose "identifiers MUST begin with a lowercase letter or a digit" (a digit may lead)
 bool simple_key(const std::string &k, int level, size_t maxlen) {
   if (k.empty() || k.size() > maxlen) return false;
   if (!(lc(k[0]) || (level == 2 && dg(k[0])))) return false;
@@ -41,7 +89,113 @@ enum Tri { MUST_ACCEPT, MUST_REJECT, DONT_CARE };
 Tri classify_key(const std::string &k) { return valid_key(k, 1) ? MUST_ACCEPT : valid_key(k, 2) ? DONT_CARE : MUST_REJECT; }
 Tri classify_value(const std::string &v) { return valid_value(v) ? MUST_ACCEPT : MUST_REJECT; }
 
-List entries(const TraceState &ts) {
+// ---- what distinguishes a string: the tail of a validator signature ------------------------------
+std::string byte_class(unsigned char ch) {
+  if (ch == 0) return "nul";
+  if (ch < 0x20) return "control";
+  if (ch == ' ') return "blank";
+  if (ch == ',') return "comma";
+  if (ch == '=') return "equals";
+  if (ch == '@') return "at";
+  if (ch == 0x7f) return "del";
+  if (ch >= 0x80) return "non-ascii";
+  if (ch >= 'A' && ch <= 'Z') return "upper-case";
+  if (lc((char)ch)) return "lower-case";
+  if (dg((char)ch)) return "digit";
+  if (ch == '_') return "underscore";
+  if (ch == '-') return "dash";
+  if (ch == '*') return "asterisk";
+  if (ch == '/') return "slash";
+  if (ch == '~') return "tilde";
+  return "punctuation";
+}
+// why the reference rejects a key (first applicable)
+std::string key_defect(const std::string &k) {
+  if (k.empty()) return "empty";
+  if (k.size() > 256) return "longer-than-256";
+  size_t ats = 0;
+  for (unsigned char ch : k) {
+    if (ch == '@') ats++;
+    else if (!kc((char)ch)) return "char:" + byte_class(ch);
+  }
+  if (k[0] == '@') return "empty-tenant-id";
+  if (!(lc(k[0]) || dg(k[0]))) return "first-char:" + byte_class((unsigned char)k[0]);
+  if (ats > 1) return "more-than-one-at";
+  if (ats == 1) {
+    size_t at = k.find('@');
+    std::string system = k.substr(at + 1);
+    if (system.empty()) return "empty-system-id";
+    if (at > 241) return "tenant-longer-than-241";
+    if (system.size() > 14) return "system-longer-than-14";
+    if (!(lc(system[0]) || dg(system[0]))) return "system-id-first-char";  // one of _ - * / (anything else is "char:")
+  }
+  return "other";
+}
+// what kind of valid key was refused
+std::string key_kind(const std::string &k) {
+  size_t at = k.find('@');
+  std::string pre = at == std::string::npos ? "" : "multi-tenant:";
+  if (at != std::string::npos && (at == 241 || k.size() - at - 1 == 14)) return pre + "at-length-limit";
+  if (at == std::string::npos && k.size() == 256) return "length-256";
+  for (unsigned char ch : k) if (ch != '@' && !lc((char)ch) && !dg((char)ch)) return pre + "with-" + byte_class(ch);
+  if (dg(k[0])) return pre + "digit-first";
+  for (unsigned char ch : k) if (dg((char)ch)) return pre + "with-digit";
+  return pre + "plain";
+}
+std::string value_defect(const std::string &v) {
+  if (v.empty()) return "empty";
+  if (v.size() > 256) return "longer-than-256";
+  for (unsigned char ch : v) if (ch < 0x20 || ch > 0x7e || ch == ',' || ch == '=') return "char:" + byte_class(ch);
+  if (v.back() == ' ') return "trailing-blank";
+  return "other";
+}
+std::string value_kind(const std::string &v) {
+  if (v.size() == 256) return "length-256";
+  if (v[0] == ' ') return "leading-blank";
+  for (unsigned char ch : v) if (ch == ' ') return "inner-blank";
+  for (unsigned char ch : v) if (!lc((char)ch) && !dg((char)ch) && !(ch >= 'A' && ch <= 'Z')) return "with-" + byte_class(ch);
+  return "plain";
+}
+std::string validator_sig(bool is_key, const std::string &s, bool accepted) {
+  std::string sig = std::string("C14:" C14_VARIANT ":") + (is_key ? "key" : "value") + (accepted ? "-accepted:" : "-rejected:");
+  if (accepted) sig += is_key ? key_defect(s) : value_defect(s);
+  else sig += is_key ? key_kind(s) : value_kind(s);
+  return sig;
+}
+std::string validator_msg(bool is_key, const std::string &s, bool accepted) {
+  return vf::sfmt("the %s validator of the " C14_VARIANT " variant %s the %s %s '%s' (%zu bytes)", is_key ? "key" : "value", accepted ? "accepts" : "rejects",
+                  accepted ? "invalid" : "valid", is_key ? "key" : "value", vfq::printable(s, 40).c_str(), s.size());
+}
+
+// Ends an execution (not a failure) at a validator deviation that is a listed known finding: what the class does
+// with a string its validator misjudges is not modelled any further.
+struct KnownDeviation {};
+
+// The reference verdict for a key / value that is about to be given to (or was found in) the TraceState.
+// The regex build (the configuration this repository is built in) is judged through the behaviour of the class
+// alone, as before. In the no-regex build every string is first shown to the variant's own validator: a deviation
+// is reported under the validator's signature (the root cause) rather than under whatever it leads to.
+Tri judge(vf::Ctx &c, bool is_key, const std::string &s) {
+  Tri t = is_key ? classify_key(s) : classify_value(s);
+#ifdef C14_NOREGEX
+  if (t != DONT_CARE) {
+    vfq::HeapStr hs(s);
+    bool acc = is_key ? TS::IsValidKey(hs.view()) : TS::IsValidValue(hs.view());
+    if (acc != (t == MUST_ACCEPT)) {
+      if (c.report(validator_sig(is_key, s, acc), validator_msg(is_key, s, acc))) {
+        c.counted("ended_at_known_validator_deviation");
+        throw KnownDeviation{};
+      }
+    }
+  }
+#endif
+  (void)c;
+  return t;
+}
+Tri judge_key(vf::Ctx &c, const std::string &k) { return judge(c, true, k); }
+Tri judge_value(vf::Ctx &c, const std::string &v) { return judge(c, false, v); }
+
+List entries(const TS &ts) {
   List l;
   ts.GetAllEntries([&](nostd::string_view k, nostd::string_view v) noexcept {
     l.emplace_back(std::string(k.data(), k.size()), std::string(v.data(), v.size()));
@@ -57,12 +211,14 @@ std::string header_of(const List &l) {
 std::string show(const List &l) { return "{" + vfq::printable(header_of(l), 120) + "}"; }
 
 std::vector<std::string> g_keys, g_values;
+int g_depth = 3;
+int g_only_part = -1;  // --part=N: development aid, runs one part only
 
 void check_valid(vf::Ctx &c, const List &l, const char *after, bool dup_check = true) {
   c.check(l.size() <= 32, "C14:more-than-32-members", vf::sfmt("%zu members after %s", l.size(), after));
   for (size_t i = 0; i < l.size(); ++i) {
-    c.check(classify_key(l[i].first) != MUST_REJECT, "C14:invalid-key-stored", vf::sfmt("after %s the state holds the invalid key '%s'", after, vfq::printable(l[i].first).c_str()));
-    c.check(classify_value(l[i].second) != MUST_REJECT, "C14:invalid-value-stored", vf::sfmt("after %s the state holds the invalid value '%s'", after, vfq::printable(l[i].second).c_str()));
+    c.check(judge_key(c, l[i].first) != MUST_REJECT, "C14:invalid-key-stored", vf::sfmt("after %s the state holds the invalid key '%s'", after, vfq::printable(l[i].first).c_str()));
+    c.check(judge_value(c, l[i].second) != MUST_REJECT, "C14:invalid-value-stored", vf::sfmt("after %s the state holds the invalid value '%s'", after, vfq::printable(l[i].second).c_str()));
     for (size_t j = 0; dup_check && j < i; ++j)
       if (l[j].first == l[i].first) {
         c.check(false, "C14:duplicate-key", vf::sfmt("after %s the key '%s' occurs twice: %s", after, vfq::printable(l[i].first).c_str(), show(l).c_str()));
@@ -81,6 +237,9 @@ void setup(vf::Options &o) {
   std::string v256(256, 'v'), v257(257, 'v');
   g_values = {"1", "2", v256, "x y", /* invalid: */ "x ", "a,b", "a=b", "", v257, std::string("a\0b", 3)};
   if (!o.thorough) { g_keys = {"a", "ab", "k0", "t1@sys", "k05", k256, "A", "", k257}; g_values = {"1", "2", v256, "x ", "a,b", ""}; }
+  g_depth = atoi(o.get("depth", o.thorough ? "4" : "3").c_str());
+  if (g_depth < 1 || g_depth > 6) g_depth = 3;
+  g_only_part = atoi(o.get("part", "-1").c_str());
 }
 
 List start_state(int which) {
@@ -90,135 +249,231 @@ List start_state(int which) {
   return l;
 }
 
+// ---- one TraceState under test in lock-step with the ordered-list model --------------------------
+struct Sess {
+  vf::Ctx &c;
+  Ptr cur;
+  List model;
+  std::string hist;
+  bool left_model = false;  // a listed known finding made the real state leave the model: stop this history
+
+  Sess(vf::Ctx &ctx, const List &start) : c(ctx), model(start) {
+    c.stage("FromHeader(start)");
+    std::string h0 = header_of(model);
+    vfq::HeapStr hs(h0);
+    cur = TS::FromHeader(hs.view());
+    c.check(entries(*cur) == model, "C14:parse-start", "start state not parsed as written: " + show(entries(*cur)) + " vs " + show(model));
+    hist = vf::sfmt("start%zu", model.size());
+  }
+
+  // every operation ends with: the receiver is never modified, Empty() agrees
+  void after(const Ptr &prev, const List &before) {
+    c.check(entries(*prev) == before, "C14:receiver-modified", "the TraceState an operation was called on changed: " + show(entries(*prev)) + " was " + show(before));
+    c.check(cur->Empty() == model.empty(), "C14:empty", "Empty() disagrees with the entries");
+  }
+
+  void set(const std::string &k, const std::string &v) {
+    List before = model;
+    Ptr prev = cur;
+    c.step();
+    hist += " Set(" + vfq::printable(k, 12) + "," + vfq::printable(v, 12) + ")";
+    c.stage("Set");
+    vfq::HeapStr hk(k), hv(v);
+    Ptr next = cur->Set(hk.view(), hv.view());
+    hk.scribble(); hv.scribble();  // the result must own its strings
+    List got = entries(*next);
+    Tri tk = judge_key(c, k), tv = judge_value(c, v);
+    if (tk == MUST_REJECT || tv == MUST_REJECT) {
+      c.check(got.empty(), "C14:set-invalid-not-default", "Set with an invalid key or value did not yield the empty default state: " + show(got));
+      model.clear();
+    } else if (tk == DONT_CARE && got.empty()) {
+      model.clear();  // implementation treats the digit-first key as invalid: permitted
+    } else {
+      bool present = false;
+      for (auto &e : model) present |= (e.first == k);
+      List want;
+      if (!present && model.size() >= 32) want = model;  // refused with an unchanged copy
+      else {
+        want.emplace_back(k, v);
+        for (auto &e : model) if (e.first != k) want.push_back(e);
+      }
+      check_valid(c, got, "Set");
+      if (got != want) {
+        const char *sig = present ? (model.size() >= 32 ? "C14:set-existing-key-at-limit" : "C14:set-existing-key") : "C14:set-result";
+        if (c.report(sig, vf::sfmt("Set('%s','%s') on %s gave %s, expected %s", vfq::printable(k, 20).c_str(), vfq::printable(v, 20).c_str(), show(model).c_str(),
+                                   show(got).c_str(), show(want).c_str()))) {
+          left_model = true;  // known finding: the real state has left the model, end this history
+          return;
+        }
+      }
+      model = want;
+    }
+    cur = next;
+    after(prev, before);
+  }
+
+  void del(const std::string &k) {
+    List before = model;
+    Ptr prev = cur;
+    c.step();
+    hist += " Delete(" + vfq::printable(k, 12) + ")";
+    c.stage("Delete");
+    vfq::HeapStr hk(k);
+    Ptr next = cur->Delete(hk.view());
+    hk.scribble();
+    List got = entries(*next);
+    Tri tk = judge_key(c, k);
+    if (tk == MUST_REJECT || (tk == DONT_CARE && got.empty() && !model.empty())) {
+      c.check(got.empty(), "C14:delete-invalid-not-default", "Delete with an invalid key did not yield the empty default state: " + show(got));
+      model.clear();
+    } else {
+      List want;
+      for (auto &e : model) if (e.first != k) want.push_back(e);
+      check_valid(c, got, "Delete");
+      c.check(got == want, "C14:delete-result", vf::sfmt("Delete('%s') on %s gave %s", vfq::printable(k, 20).c_str(), show(model).c_str(), show(got).c_str()));
+      model = want;
+    }
+    cur = next;
+    after(prev, before);
+  }
+
+  void get(const std::vector<std::string> &keys) {
+    List before = model;
+    Ptr prev = cur;
+    c.step();
+    c.stage("Get");
+    hist += " Get*";
+    for (auto &k : keys) {
+      std::string v = "unset";
+      vfq::HeapStr hk(k);
+      bool ok = cur->Get(hk.view(), v);
+      const std::string *want = nullptr;
+      for (auto &e : model) if (e.first == k) { want = &e.second; break; }
+      c.check(ok == (want != nullptr), "C14:get-presence", vf::sfmt("Get('%s') on %s returned %d", vfq::printable(k, 20).c_str(), show(model).c_str(), (int)ok));
+      if (want) c.check(v == *want, "C14:get-value", vf::sfmt("Get('%s') returned '%s', latest value is '%s'", vfq::printable(k, 20).c_str(), vfq::printable(v, 20).c_str(), vfq::printable(*want, 20).c_str()));
+    }
+    after(prev, before);
+  }
+
+  void roundtrip() {
+    List before = model;
+    Ptr prev = cur;
+    c.step();
+    c.stage("roundtrip");
+    hist += " RoundTrip";
+    std::string h = cur->ToHeader();
+    c.check(h == header_of(model), "C14:to-header", "ToHeader gave '" + vfq::printable(h, 100) + "' for " + show(model));
+    vfq::HeapStr hh(h);
+    Ptr back = TS::FromHeader(hh.view());
+    hh.scribble();
+    c.check(entries(*back) == model, "C14:roundtrip", "FromHeader(ToHeader(x)) gave " + show(entries(*back)) + " for " + show(model));
+    cur = back;
+    after(prev, before);
+  }
+};
+
 void run_histories(vf::Ctx &c) {
   int which = c.pick("start", 4);
-  List model = start_state(which);
-  c.stage("FromHeader(start)");
-  std::string h0 = header_of(model);
-  vfq::HeapStr hs(h0);
-  nostd::shared_ptr<TraceState> cur = TraceState::FromHeader(hs.view());
-  c.check(entries(*cur) == model, "C14:parse-start", "start state not parsed as written: " + show(entries(*cur)) + " vs " + show(model));
-  int depth = c.thorough() ? 4 : 3;
-  std::string hist = vf::sfmt("start%zu", model.size());
-  for (int d = 0; d < depth; ++d) {
+  Sess s(c, start_state(which));
+  for (int d = 0; d < g_depth; ++d) {
     {
-      vf::H128 h; h.add(0xc14); h.add((uint64_t)d); h.add_str(header_of(entries(*cur)));
+      vf::H128 h; h.add(0xc14); h.add((uint64_t)d); h.add_str(header_of(entries(*s.cur)));
       c.prune_point(h);  // complete: a TraceState is an immutable value, its future depends on its entries only
     }
     int op = c.pick("op", 4);
-    List before = model;
-    nostd::shared_ptr<TraceState> prev = cur;
-    c.step();
-    if (op == 0) {  // Set
+    if (op == 0) {
       std::string k = c.pick_from("key", g_keys), v = c.pick_from("value", g_values);
-      hist += " Set(" + vfq::printable(k, 12) + "," + vfq::printable(v, 12) + ")";
-      c.stage("Set");
-      vfq::HeapStr hk(k), hv(v);
-      nostd::shared_ptr<TraceState> next = cur->Set(hk.view(), hv.view());
-      hk.scribble(); hv.scribble();  // the result must own its strings
-      List got = entries(*next);
-      Tri tk = classify_key(k), tv = classify_value(v);
-      if (tk == MUST_REJECT || tv == MUST_REJECT) {
-        c.check(got.empty(), "C14:set-invalid-not-default", "Set with an invalid key or value did not yield the empty default state: " + show(got));
-        model.clear();
-      } else if (tk == DONT_CARE && got.empty()) {
-        model.clear();  // implementation treats the level-2-only key as invalid: permitted
-      } else {
-        bool present = false;
-        for (auto &e : model) present |= (e.first == k);
-        List want;
-        if (!present && model.size() >= 32) want = model;  // refused with an unchanged copy
-        else {
-          want.emplace_back(k, v);
-          for (auto &e : model) if (e.first != k) want.push_back(e);
-        }
-        check_valid(c, got, "Set");
-        if (got != want) {
-          const char *sig = present ? (model.size() >= 32 ? "C14:set-existing-key-at-limit" : "C14:set-existing-key") : "C14:set-result";
-          if (c.report(sig, vf::sfmt("Set('%s','%s') on %s gave %s, expected %s", vfq::printable(k, 20).c_str(), vfq::printable(v, 20).c_str(), show(model).c_str(),
-                                     show(got).c_str(), show(want).c_str()))) {
-            return;  // known finding: the real state has left the model, end this history
-          }
-        }
-        model = want;
-      }
-      cur = next;
-    } else if (op == 1) {  // Delete
-      std::string k = c.pick_from("key", g_keys);
-      hist += " Delete(" + vfq::printable(k, 12) + ")";
-      c.stage("Delete");
-      vfq::HeapStr hk(k);
-      nostd::shared_ptr<TraceState> next = cur->Delete(hk.view());
-      hk.scribble();
-      List got = entries(*next);
-      Tri tk = classify_key(k);
-      if (tk == MUST_REJECT || (tk == DONT_CARE && got.empty() && !model.empty())) {
-        c.check(got.empty(), "C14:delete-invalid-not-default", "Delete with an invalid key did not yield the empty default state: " + show(got));
-        model.clear();
-      } else {
-        List want;
-        for (auto &e : model) if (e.first != k) want.push_back(e);
-        check_valid(c, got, "Delete");
-        c.check(got == want, "C14:delete-result", vf::sfmt("Delete('%s') on %s gave %s", vfq::printable(k, 20).c_str(), show(model).c_str(), show(got).c_str()));
-        model = want;
-      }
-      cur = next;
-    } else if (op == 2) {  // Get on every key of the alphabet
-      c.stage("Get");
-      hist += " Get*";
-      for (auto &k : g_keys) {
-        std::string v = "unset";
-        vfq::HeapStr hk(k);
-        bool ok = cur->Get(hk.view(), v);
-        const std::string *want = nullptr;
-        for (auto &e : model) if (e.first == k) { want = &e.second; break; }
-        c.check(ok == (want != nullptr), "C14:get-presence", vf::sfmt("Get('%s') on %s returned %d", vfq::printable(k, 20).c_str(), show(model).c_str(), (int)ok));
-        if (want) c.check(v == *want, "C14:get-value", vf::sfmt("Get('%s') returned '%s', latest value is '%s'", vfq::printable(k, 20).c_str(), vfq::printable(v, 20).c_str(), vfq::printable(*want, 20).c_str()));
-      }
-    } else {  // header round trip
-      c.stage("roundtrip");
-      hist += " RoundTrip";
-      std::string h = cur->ToHeader();
-      c.check(h == header_of(model), "C14:to-header", "ToHeader gave '" + vfq::printable(h, 100) + "' for " + show(model));
-      vfq::HeapStr hh(h);
-      nostd::shared_ptr<TraceState> back = TraceState::FromHeader(hh.view());
-      hh.scribble();
-      c.check(entries(*back) == model, "C14:roundtrip", "FromHeader(ToHeader(x)) gave " + show(entries(*back)) + " for " + show(model));
-      cur = back;
+      s.set(k, v);
+      if (s.left_model) return;
+    } else if (op == 1) {
+      s.del(c.pick_from("key", g_keys));
+    } else if (op == 2) {
+      s.get(g_keys);  // Get on every key of the alphabet
+    } else {
+      s.roundtrip();
     }
-    // the receiver is never modified
-    c.check(entries(*prev) == before, "C14:receiver-modified", "the TraceState an operation was called on changed: " + show(entries(*prev)) + " was " + show(before));
-    c.check(cur->Empty() == model.empty(), "C14:empty", "Empty() disagrees with the entries");
-    c.state(vf::sfmt("%d|", d) + header_of(entries(*cur)));
+    c.state(vf::sfmt("%d|", d) + header_of(entries(*s.cur)));
   }
-  c.outcome(header_of(model));
-  c.sample(hist + " => " + show(model));
+  c.outcome(header_of(s.model));
+  c.sample(s.hist + " => " + show(s.model));
 }
 
 // ---- header side: deviation-bounded generator ---------------------------------------------------
-void run_headers(vf::Ctx &c) {
-  static std::vector<std::string> seeds, inputs;
-  if (seeds.empty()) {
-    seeds = {"", "a=1", "a=1,b=2", "ab=1,a=2", "t1@sys=v", "a=1,,b=2", "a=1, b=2", " a=1 ,b=2 ", "a=x y,b=2"};
-    { List l = start_state(3); seeds.push_back(header_of(l)); l.emplace_back("k32", "v"); seeds.push_back(header_of(l)); }
-    const std::string classes = std::string("a1A=,@ \t\x80;", 10) + std::string(1, '\0');
-    for (auto &s : seeds) {
-      inputs.push_back(s);
-      if (s.size() > 60) {  // long seeds: mutate around the ends and one member boundary only
-        for (auto &m : vfq::mutations(s.substr(0, 12), classes)) inputs.push_back(m + s.substr(12));
-        for (auto &m : vfq::mutations(s.substr(s.size() - 8), classes)) inputs.push_back(s.substr(0, s.size() - 8) + m);
-      } else {
-        auto ms = vfq::mutations(s, classes);
-        inputs.insert(inputs.end(), ms.begin(), ms.end());
-        if (c.thorough())
-          for (auto &m : ms) { auto m2 = vfq::mutations(m, "a=, "); inputs.insert(inputs.end(), m2.begin(), m2.end()); }
-      }
+struct HeaderInputs {
+  std::vector<std::string> all;  // seeds and first-level mutations of EVERY seed first, second-level mutations after them
+  size_t first_level = 0;        // all[0 .. first_level) = seeds and their single mutations
+  size_t over_32 = 0, ows = 0;   // inputs with more than 32 non-empty members / with blanks around a member
+};
+constexpr size_t kChunk = 4096;  // one pick holds at most 60000 alternatives: the list is walked as (chunk, index)
+
+const HeaderInputs &header_inputs(bool thorough) {
+  static HeaderInputs hi;
+  if (!hi.all.empty()) return hi;
+  std::vector<std::string> seeds = {"", "a=1", "a=1,b=2", "ab=1,a=2", "t1@sys=v", "a=1,,b=2", "a=1, b=2", " a=1 ,b=2 ", "a=x y,b=2",
+                                    /* every key character besides letters and digits; a value that starts with '~': */ "a_-*/z=~x"};
+  { List l = start_state(3); seeds.push_back(header_of(l)); l.emplace_back("k32", "v"); seeds.push_back(header_of(l)); }
+  // one representative per byte class; '_' '-' '*' '/' are the key-only characters, '.' '+' ':' '`' '{' their ASCII
+  // neighbours (what a widened range would let in), '~' / DEL / 0x1f the ends of the value range
+  const std::string classes = std::string("a1A=,@ \t\x80;_-*/.+:`{~\x7f\x1f", 22) + std::string(1, '\0');
+  std::unordered_set<std::string> seen;
+  auto add = [&](const std::string &s) { if (seen.insert(s).second) hi.all.push_back(s); };
+  std::vector<std::string> second_from;  // first-level mutants that get a second mutation (thorough)
+  std::vector<std::pair<std::string, std::string>> second_from_tail;  // (untouched prefix, mutated last 8 bytes) of the long seeds
+  for (auto &s : seeds) {
+    add(s);
+    if (s.size() > 60) {  // long seeds: mutate around the ends and one member boundary only
+      for (auto &m : vfq::mutations(s.substr(0, 12), classes)) add(m + s.substr(12));
+      for (auto &m : vfq::mutations(s.substr(s.size() - 8), classes)) { add(s.substr(0, s.size() - 8) + m); second_from_tail.emplace_back(s.substr(0, s.size() - 8), m); }
+    } else {
+      for (auto &m : vfq::mutations(s, classes)) { add(m); second_from.push_back(m); }
     }
   }
-  const std::string &in = inputs[c.pick("header", (int)(inputs.size() > 60000 ? 60000 : inputs.size()))];
+  hi.first_level = hi.all.size();
+  if (thorough) {
+    for (auto &m : second_from)
+      for (auto &m2 : vfq::mutations(m, "a=, ")) add(m2);
+    // the 32- and 33-member headers: two mutations within the last member and the separator before it
+    for (auto &pm : second_from_tail)
+      for (auto &m2 : vfq::mutations(pm.second, "a=, ")) add(pm.first + m2);
+  }
+  for (auto &s : hi.all) {
+    size_t members = 0, pos = 0;
+    bool blank = false;
+    while (pos <= s.size()) {
+      size_t e = s.find(',', pos);
+      if (e == std::string::npos) e = s.size();
+      std::string m = s.substr(pos, e - pos);
+      pos = e + 1;
+      if (m.find_first_not_of(" \t") == std::string::npos) continue;
+      members++;
+      blank |= (m[0] == ' ' || m.back() == ' ');
+    }
+    hi.over_32 += members > 32;
+    hi.ows += blank;
+  }
+  return hi;
+}
+
+void run_headers(vf::Ctx &c) {
+  const HeaderInputs &hi = header_inputs(c.thorough());
+  const std::vector<std::string> &inputs = hi.all;
+  // nothing is cut off: every input is reachable through (chunk, index)
+  size_t nchunks = (inputs.size() + kChunk - 1) / kChunk;
+  size_t chunk = (size_t)c.pick("header-chunk", (int)nchunks);
+  size_t in_chunk = std::min(kChunk, inputs.size() - chunk * kChunk);
+  size_t idx = chunk * kChunk + (size_t)c.pick("header", (int)in_chunk);
+  const std::string &in = inputs[idx];
+  if (idx == 0) {  // the size of the generated list, for comparison with header_inputs_executed
+    c.counted("header_inputs_generated", inputs.size());
+    c.counted("header_inputs_generated_first_level", hi.first_level);
+    c.counted("header_inputs_generated_over_32_members", hi.over_32);
+    c.counted("header_inputs_generated_with_ows", hi.ows);
+  }
+  c.counted("header_inputs_executed");
+  if (idx < hi.first_level) c.counted("header_inputs_executed_first_level");
   c.stage("FromHeader");
   vfq::HeapStr hs(in);
-  nostd::shared_ptr<TraceState> ts = TraceState::FromHeader(hs.view());
+  Ptr ts = TS::FromHeader(hs.view());
   hs.scribble();
   c.step();
   List got = entries(*ts);
@@ -245,12 +500,14 @@ void run_headers(vf::Ctx &c) {
     std::string k = m.substr(0, eq), v = m.substr(eq + 1);
     // blanks between key, '=' and value are not part of the grammar; implementations differ
     if ((!k.empty() && (k.back() == ' ' || k.back() == '\t')) || (!v.empty() && (v[0] == ' ' || v[0] == '\t'))) dontcare = true;
-    if (classify_key(k) == MUST_REJECT || classify_value(v) == MUST_REJECT) { bad = true; continue; }
-    if (classify_key(k) == DONT_CARE) dontcare = true;
+    if (members > 32) continue;  // the header is over-long whatever this member holds (and the parser never validates it)
+    Tri tk = judge_key(c, k), tv = judge_value(c, v);
+    if (tk == MUST_REJECT || tv == MUST_REJECT) { bad = true; continue; }
+    if (tk == DONT_CARE) dontcare = true;
     for (auto &x : want) if (x.first == k) dontcare = true;  // duplicate keys in a header: not covered by the statement
     want.emplace_back(k, v);
   }
-  if (members > 32) { bad = true; }
+  if (members > 32) { bad = true; c.counted("header_inputs_executed_over_32_members"); }
   // Empty list members are list members in the W3C grammar: whether they count towards the limit of 32
   // is left open by the statement.
   if (members <= 32 && members + empties > 32) dontcare = true;
@@ -259,17 +516,183 @@ void run_headers(vf::Ctx &c) {
   if (!dontcare) {
     if (bad) c.check(got.empty(), "C14:partial-parse", "header '" + vfq::printable(in, 100) + "' has an invalid member (or too many) but parsed to " + show(got));
     else c.check(got == want, "C14:parse-result", "header '" + vfq::printable(in, 100) + "' parsed to " + show(got) + ", expected " + show(want));
+  } else {
+    c.counted("header_inputs_dont_care");
   }
   c.state("h|" + header_of(got));
   c.outcome(header_of(got));
   if (in.size() < 40) c.sample("FromHeader('" + vfq::printable(in) + "') => " + show(got));
 }
 
+// ---- the wide string sets of parts 2 and 3 ------------------------------------------------------
+std::string rep(size_t n, char first, char rest) {
+  std::string s(n, rest);
+  if (n) s[0] = first;
+  return s;
+}
+struct Uniq {
+  std::vector<std::string> v;
+  std::unordered_set<std::string> seen;
+  void add(const std::string &s) { if (seen.insert(s).second) v.push_back(s); }
+};
+
+// Both sets list the hand-picked forms and the boundary lengths first (g_*_forms entries), the byte sweeps after them.
+size_t g_key_forms = 0, g_value_forms = 0;
+
+const std::vector<std::string> &wide_keys() {
+  static Uniq u;
+  if (!u.v.empty()) return u.v;
+  // forms: every key character besides letters/digits and its ASCII neighbours, vendor@tenant shapes
+  for (const char *s : {"a", "z", "az09", "a_-*/z", "a_", "a-", "a*", "a/", "a.b", "a+b", "a:b", "a{", "a`", "a,", "a~", "_a", "-a", "*a", "/a", "0", "9", "1a",
+                        "a@b", "1a@b", "a@1", "t1@sys", "a@b_-*/", "a_-*/@b", "a@", "@", "@a", "a@b@c", "a@@b", "a@b@", "@a@b", "a@B", "A@b", "a@-b", "a@_", "a@*b",
+                        "a@/b", "a b", " a", "a ", "a@ b", "a=b"})
+    u.add(s);
+  u.add("");
+  // boundary lengths of simple keys
+  for (size_t n : {255, 256, 257}) { u.add(rep(n, 'k', 'x')); u.add(rep(n, 'k', '_')); u.add(rep(n, 'z', '9')); u.add(rep(n, '0', '/')); }
+  u.add(rep(255, 'k', 'x') + "*");
+  u.add(rep(255, 'k', 'x') + "A");
+  u.add(rep(256, 'k', 'x') + "@");
+  // tenant (limit 241) x system (limit 14)
+  for (size_t t : {1, 2, 240, 241, 242})
+    for (size_t s : {0, 1, 13, 14, 15}) { u.add(rep(t, 't', 'x') + "@" + rep(s, 's', 'y')); u.add(rep(t, '1', '-') + "@" + rep(s, 's', '/')); }
+  u.add(rep(255, 't', 'x') + "@");                      // 256 bytes, empty system id
+  u.add(rep(254, 't', 'x') + "@s");                     // 256 bytes, tenant too long
+  u.add("t@" + rep(254, 's', 'y'));                     // 256 bytes, system id too long
+  u.add(rep(241, 't', 'x') + "@" + rep(15, 's', 'y'));  // 257 bytes
+  u.add(rep(242, 't', 'x') + "@" + rep(14, 's', 'y'));  // 257 bytes
+  u.add(rep(241, 't', 'x') + "@" + rep(14, '5', 'y'));  // digit-first system id at both limits
+  u.add(rep(241, 't', 'x') + "@" + rep(14, '-', 'y'));
+  g_key_forms = u.v.size();
+  // every byte value alone, at each position of a simple key, at each position of a multi-tenant key
+  for (int b = 0; b < 256; ++b) {
+    u.add(std::string(1, (char)b));
+    for (size_t p = 0; p < 3; ++p) { std::string s = "abc"; s[p] = (char)b; u.add(s); }
+    for (size_t p = 0; p < 5; ++p) { std::string s = "t1@sy"; s[p] = (char)b; u.add(s); }
+  }
+  return u.v;
+}
+
+const std::vector<std::string> &wide_values() {
+  static Uniq u;
+  if (!u.v.empty()) return u.v;
+  for (const char *s : {"1", "~", "!", "!~", " x", "x y", "x ", " ", "  ", "x  ", " x ", "  x", "\x7f", "\x1f", "x\x7f", "a,b", "a=b", ",", "=", "\t", "x\t", "a;b", "a@b"}) u.add(s);
+  u.add("");
+  u.add(std::string("a\0b", 3));
+  for (size_t n : {255, 256, 257}) {
+    u.add(std::string(n, 'v'));
+    u.add(std::string(n, '~'));
+    u.add(std::string(n, '!'));
+    u.add(std::string(n - 1, 'v') + " ");  // ends in a blank
+    u.add(" " + std::string(n - 1, 'v'));  // starts with a blank
+    u.add(std::string(n - 1, ' ') + "v");  // all blank but the last
+    u.add(std::string(n, ' '));
+    u.add(std::string(n - 1, 'v') + ",");
+    u.add(std::string(n - 1, 'v') + "\x7f");
+  }
+  g_value_forms = u.v.size();
+  // every byte value alone and at each position of a three-byte value
+  for (int b = 0; b < 256; ++b) {
+    u.add(std::string(1, (char)b));
+    for (size_t p = 0; p < 3; ++p) { std::string s = "xyz"; s[p] = (char)b; u.add(s); }
+  }
+  return u.v;
+}
+
+// ---- part 3: the public validators themselves -----------------------------------------------------
+void run_validators(vf::Ctx &c) {
+  bool is_key = c.pick("validator", 2) == 0;
+  const std::vector<std::string> &set = is_key ? wide_keys() : wide_values();
+  int si = c.pick(is_key ? "key" : "value", (int)set.size());
+  const std::string &s = set[si];
+  if (si == 0) {  // the sizes of the wide sets, once
+    c.counted(is_key ? "wide_keys" : "wide_values", set.size());
+    c.counted(is_key ? "wide_key_forms_and_lengths" : "wide_value_forms_and_lengths", is_key ? g_key_forms : g_value_forms);
+  }
+  c.stage(is_key ? "IsValidKey" : "IsValidValue");
+  c.step();
+  vfq::HeapStr hs(s);  // exact-size block, no terminator: a validator that reads a C string is an ASan report
+  bool acc = is_key ? TS::IsValidKey(hs.view()) : TS::IsValidValue(hs.view());
+  Tri t = is_key ? classify_key(s) : classify_value(s);
+  c.counted(t == MUST_ACCEPT ? "validator_must_accept" : t == MUST_REJECT ? "validator_must_reject" : "validator_dont_care");
+  if (t != DONT_CARE && acc != (t == MUST_ACCEPT)) {
+    if (!c.report(validator_sig(is_key, s, acc), validator_msg(is_key, s, acc))) return;
+    c.counted("validator_known_deviation");
+  }
+  // the same string inside a longer buffer: the verdict must not depend on what follows the view
+  {
+    std::string longer = s + (acc ? "\x01," : "a");
+    vfq::HeapStr hl(longer);
+    nostd::string_view slice(hl.view().data(), s.size());
+    bool acc2 = is_key ? TS::IsValidKey(slice) : TS::IsValidValue(slice);
+    c.check(acc2 == acc, std::string("C14:" C14_VARIANT ":") + (is_key ? "key" : "value") + "-verdict-depends-on-bytes-after-the-view",
+            vf::sfmt("'%s' as an exact block: %d, as a slice of '%s': %d", vfq::printable(s, 40).c_str(), (int)acc, vfq::printable(longer, 44).c_str(), (int)acc2));
+  }
+#ifdef C14_NOREGEX
+  {
+    // both variants on the same string. A disagreement outside the don't-care set is necessarily a deviation of one
+    // of them from the reference (reported by its own harness); inside it is only counted.
+    bool rx = is_key ? TraceState::IsValidKey(hs.view()) : TraceState::IsValidValue(hs.view());
+    c.counted(rx == acc ? "variants_agree" : t == DONT_CARE ? "variants_disagree_dont_care" : "variants_disagree");
+  }
+#endif
+  c.state(std::string(is_key ? "vk|" : "vv|") + (acc ? "1|" : "0|") + s);
+  c.outcome(std::string(is_key ? "key " : "value ") + (acc ? "accepted " : "rejected ") + (t == MUST_ACCEPT ? "valid" : t == MUST_REJECT ? "invalid" : "digit-first"));
+  if (s.size() < 12) c.sample(std::string(is_key ? "IsValidKey('" : "IsValidValue('") + vfq::printable(s) + "') => " + (acc ? "true" : "false"));
+}
+
+// ---- part 2: one Set over the wide sets, with fixed observers ----------------------------------
+void run_single(vf::Ctx &c) {
+  static const std::vector<int> starts_q = {0, 2}, starts_t = {0, 1, 2, 3};
+  static const std::vector<std::string> pk_q = {"a"}, pk_t = {"a", "t1@sys", "k05"}, pv_q = {"1"}, pv_t = {"1", "x y", std::string(256, 'v')};
+  int which = c.pick_from("start", c.thorough() ? starts_t : starts_q);
+  bool wide_key = c.pick("wide", 2) == 0;
+  std::string k, v;
+  // quick tier: the byte sweeps run on the empty start state only (what a validator says does not depend on the
+  // receiver); the forms and boundary lengths run on every start state
+  bool all = c.thorough() || which == 0;
+  const std::vector<std::string> &wk = wide_keys(), &wv = wide_values();  // (these calls set g_key_forms / g_value_forms)
+  if (wide_key) { k = wk[c.pick("key", (int)(all ? wk.size() : g_key_forms))]; v = c.pick_from("value", c.thorough() ? pv_t : pv_q); }
+  else { v = wv[c.pick("value", (int)(all ? wv.size() : g_value_forms))]; k = c.pick_from("key", c.thorough() ? pk_t : pk_q); }
+  std::vector<std::string> probe = {k, "k00", "k0", "k30", "k31"};
+  List start = start_state(which);
+  if (wide_key) {
+    // the key alone on the start state: Get, Delete of an absent (or invalid) key
+    Sess t(c, start);
+    t.get(probe);
+    t.del(k);
+    t.get(probe);
+    c.state("s1|" + header_of(entries(*t.cur)));
+  }
+  Sess s(c, start);
+  s.set(k, v);
+  if (s.left_model) return;
+  s.get(probe);
+  s.roundtrip();
+  s.get(probe);
+  c.state("s2|" + header_of(entries(*s.cur)));
+  std::string mid = header_of(s.model);
+  s.del(k);
+  s.get(probe);
+  s.roundtrip();
+  c.state("s3|" + header_of(entries(*s.cur)));
+  c.outcome(mid + " / " + header_of(s.model));
+  if (k.size() < 12 && v.size() < 12) c.sample(s.hist + " => " + show(s.model));
+}
+
 void run(vf::Ctx &c) {
-  if (c.pick("part", 2) == 0) run_histories(c);
-  else run_headers(c);
+  try {
+    switch (g_only_part >= 0 ? g_only_part : c.pick("part", 4)) {
+      case 0: run_histories(c); break;
+      case 1: run_headers(c); break;
+      case 2: run_single(c); break;
+      default: run_validators(c); break;  // (last: the work queue hands out the last alternative first, so the most precise signatures come first)
+    }
+  } catch (KnownDeviation &) {
+    // a listed known finding of the variant's validator ended this execution
+  }
 }
 
 }  // namespace
 
-VF_MAIN("c14_tracestate", "C14", setup, run)
+VF_MAIN(C14_HARNESS, "C14", setup, run)
